@@ -219,6 +219,28 @@ def run_mode(mode, case, progs, dumper, rng, budget_paths=20000, log=print):
                 res["b"] = native_result(dumper.find_pike(pat, case.flags, False, text, hy.off[s0], ascii=True))
             out["witnesses"] = out.get("witnesses", 0) + 1
             return res
+        if mode == "C09":
+            # one representative haystack per behaviour class (path) of the machine's first-match search; on it the
+            # REAL iterators must yield the lastIndex unfolding of fresh first-match searches (state carried from
+            # one match to the next inside an iterator is invisible to a first-match comparison)
+            res["vm"] = vm_run(progs["opt"], hy, ctx, s0)
+            m = ctx.model()
+            text = to_chars(hy, hy.model_bytes(m))
+            engines = ["bt", "pike"] + (["bta", "pikea"] if all(w == 1 for w in hy.widths) else [])
+            res["a"], res["b"] = None, None
+            for eng in engines:
+                for no in (False, True):
+                    r = dumper.iter_consistency(pat, case.flags, no, text, hy.off[s0], eng)
+                    if r.get("timeout") or r.get("crashed") is not None:
+                        res["a"], res["b"] = ("TIMEOUT" if r.get("timeout") else "CRASH", eng, no), None
+                        break
+                    if r.get("ok") and r.get("same") is False:
+                        res["a"], res["b"] = ("iter", eng, no, json.dumps(r["a"])), ("fresh", eng, no, json.dumps(r["b"]))
+                        break
+                if res["a"] != res["b"]:
+                    break
+            out["witnesses"] = out.get("witnesses", 0) + 1
+            return res
         if mode in ("C13", "C13n"):
             which = "opt" if mode == "C13" else "noopt"
             res["a"] = vm_run(progs[which], hy, ctx, s0, ascii=True)
@@ -412,6 +434,15 @@ def confirm_native(mode, case, cex, dumper):
         asc = native_result(dumper.find_ascii(pat, case.flags, no, text, start))
         ref = noopt if no else opt
         return asc != ref, "find_from_ascii %r vs find_from %r%s" % (asc, ref, " (no_opt)" if no else "")
+    if mode == "C09":
+        engines = ["bt", "pike"] + (["bta", "pikea"] if all(ord(ch) < 0x80 for ch in text) else [])
+        for eng in engines:
+            for no in (False, True):
+                r = dumper.iter_consistency(pat, case.flags, no, text, start, eng)
+                if r.get("ok") and r.get("same") is False:
+                    return True, "one iterator (%s%s) yields %s but fresh first-match searches along the lastIndex cursor yield %s" % (
+                        eng, ", no_opt" if no else "", json.dumps(r["a"]), json.dumps(r["b"]))
+        return False, "iterators agree with the lastIndex unfolding"
     if mode == "C02":
         pk = native_result(dumper.find_pike(pat, case.flags, False, text, start))
         if opt != pk:
@@ -560,11 +591,34 @@ def random_cases(seed, count):
     return out
 
 
+def iteration_cases():
+    """Patterns whose SECOND and later matches depend on interpreter state (loop counters, captures, the backtrack
+    stack) being fresh: counted general loops, captures in loops, lookarounds - over haystacks long enough for
+    several matches."""
+    c = []
+
+    def add(node, flags, tag, nmax=4, widths=(1,)):
+        k = Case(node, flags, tag)
+        k.widths, k.nmax, k.lens, k.ascii_only = widths, nmax, None, False
+        c.append(k)
+
+    a, b, cc = L("a"), L("b"), L("c")
+    add(Quant(Group(Alt([S([a, b]), cc]), cap=False), 1, 2), "", "it_counted_alt_1_2")
+    add(Quant(Group(Alt([S([a, b]), cc]), cap=False), 2, 3), "", "it_counted_alt_2_3", nmax=5)
+    add(Rep(Group(S([Esc("w"), Esc("d")])), 2), "", "it_rep_capture_2", nmax=5)
+    add(S([Quant(Group(a), 0, 1), b]), "", "it_optional_capture_then_b")
+    add(S([Quant(Group(Alt([a, S([])])), 1, 2), b]), "", "it_capture_or_empty_1_2_b")
+    add(S([Look(Group(a)), Quant(Dot(), 1, 2, False)]), "", "it_lookahead_capture_lazy")
+    add(S([Group(Quant(a, 0, None)), Look(b, ahead=False, neg=True)]), "", "it_star_capture_neg_lookbehind")
+    add(S([Quant(Group(S([a, Quant(b, 0, 1)]), cap=False), 1, 2), WB()]), "", "it_counted_wb")
+    return c
+
+
 _EXTRA = []
 
 
 def all_cases():
-    return smt_cases() + nested_quant_cases() + _EXTRA
+    return smt_cases() + nested_quant_cases() + iteration_cases() + _EXTRA
 
 
 def main(argv):
@@ -583,6 +637,8 @@ def main(argv):
         import classgen
         cases = classgen.cases(seed, 40 if tier == "quick" else 2000)
         _EXTRA.extend(cases)
+    elif mode_prop == "C09":
+        cases = iteration_cases() + [c for i, c in enumerate(smt_cases()) if tier != "quick" or (i + seed) % 5 == 0]
     elif mode_prop == "C05":
         cases = nested_quant_cases()
         if tier == "quick":
@@ -610,7 +666,7 @@ def main(argv):
                                     detail="pattern rejected by the compiler: %s" % rej, leaves=0, queries=0, solver_s=0,
                                     shapes=0, outcomes=[]))
                 continue
-            modes = {"C01": ["C01", "C01n"], "C12": ["C01", "C01n"], "C10": ["C01", "C01n"], "C03": ["C03"], "C04": ["C04"], "C05": ["C05"], "C13": ["C13", "C13n"], "C16": [], "C02": ["C02"]}[mode_prop]
+            modes = {"C01": ["C01", "C01n"], "C12": ["C01", "C01n"], "C10": ["C01", "C01n"], "C03": ["C03"], "C04": ["C04"], "C05": ["C05"], "C13": ["C13", "C13n"], "C16": [], "C02": ["C02"], "C09": ["C09"]}[mode_prop]
             if mode_prop in ("C01", "C16") and any(case.names):
                 # C16: group names reported in source order, aligned with the capture slots (compile-side fact)
                 for which in ("opt", "noopt"):
